@@ -51,6 +51,17 @@ class Block:
         return f"Block({self.id},{self.w}x{self.h},sep={self.sep})"
 
 
+class PBlock:
+    """a padded render output as produced by Padding.pad under its C05 contract: (t + h + b) lines of (l + w + r)
+    columns, the block at offset (l, t)"""
+
+    def __init__(self, id, w, h, l, t, r, b):
+        self.id, self.w, self.h, self.l, self.t, self.r, self.b = id, w, h, l, t, r, b
+
+    def __repr__(self):
+        return f"PBlock({self.id},{self.w}x{self.h},+{self.l},{self.t},{self.r},{self.b})"
+
+
 class Payload:
     def __init__(self, tag, lo, hi):
         self.tag, self.lo, self.hi = tag, lo, hi
@@ -106,7 +117,7 @@ class TS:
                 r = Or(r, to_z3(it.n) > 0 if is_sym(it.n) else it.n > 0)
             elif isinstance(it, Rep):
                 r = Or(r, And(it.ts.truth(), to_z3(it.n) > 0 if is_sym(it.n) else it.n > 0))
-            elif isinstance(it, Block):
+            elif isinstance(it, (Block, PBlock)):
                 return True
             elif isinstance(it, Payload):
                 r = Or(r, to_z3(it.hi) > to_z3(it.lo))
@@ -138,7 +149,7 @@ def as_ts(v):
         return TS([OpaqueS(v.why)])
     if isinstance(v, EnumV) and isinstance(v.value, str):
         return TS([v.value])
-    if isinstance(v, (IntDec, Text, Rep, Block, Payload, Cond, OpaqueS)):
+    if isinstance(v, (IntDec, Text, Rep, Block, PBlock, Payload, Cond, OpaqueS)):
         return TS([v])
     raise Unsupported(f"cannot render {v!r} into a string")
 
@@ -347,6 +358,8 @@ class VT:
             self.rep(it.ts, it.n)
         elif isinstance(it, Block):
             self.block(it)
+        elif isinstance(it, PBlock):
+            self.pblock(it)
         elif isinstance(it, Payload):
             p = g["parser"]
             if isinstance(p, tuple) and p[0] == "str":
@@ -399,7 +412,8 @@ class VT:
                 g["parser"] = "ground"
         elif p[0] == "csi":
             _, priv, params, cur = p
-            if ch in "?>=<" and not params and cur == "":
+            empty = isinstance(cur, str) and cur == ""
+            if ch in "?>=<" and not params and empty:
                 g["parser"] = ("csi", priv + ch, params, cur)
             elif ch.isdigit():
                 if not isinstance(cur, str):
@@ -408,7 +422,7 @@ class VT:
             elif ch == ";":
                 g["parser"] = ("csi", priv, params + [self.fin_param(cur)], "")
             elif "@" <= ch <= "~":
-                params = params + [self.fin_param(cur)] if (cur != "" or params) else []
+                params = params + [self.fin_param(cur)] if (not empty or params) else []
                 g["parser"] = "ground"
                 self.csi(priv, params, ch)
             else:
@@ -438,7 +452,7 @@ class VT:
             raise Unsupported(f"parser state {p!r}")
 
     def fin_param(self, cur):
-        if cur == "":
+        if isinstance(cur, str) and cur == "":
             return None
         if isinstance(cur, str):
             return int(cur)
@@ -449,7 +463,7 @@ class VT:
         p = g["parser"]
         if p[0] == "csi":
             _, priv, params, cur = p
-            if cur != "":
+            if not (isinstance(cur, str) and cur == ""):
                 raise Unsupported("symbolic parameter adjacent to digits")
             # a negative number would print '-' which is not a parameter byte
             self.oblige("complete-control-sequence:param>=0", to_z3(v) >= 0)
@@ -585,14 +599,38 @@ class VT:
         merged["log"] = before["log"] + [("cond", it.c, after["log"][len(before["log"]):])]
         self.g = merged
 
+    def pblock(self, b):
+        """contract of Padding.pad (C05 placement): occupies rows [row, row+PH) x cols [0, PW) from column 0"""
+        g = self.g
+        if g["parser"] != "ground":
+            raise Unsupported("block inside a control sequence")
+        PW, PH = b.l + b.w + b.r, b.t + b.h + b.b
+        self.oblige("padded-render-starts-at-column-0", z3.Or(to_z3(g["col"]) == 0, PH == 1), kind="geometry")
+        self.oblige("never-wraps", to_z3(g["col"]) + PW <= to_z3(g["TW"]), kind="geometry")
+        g["arow"], g["acol"] = g["row"] + b.t, If(PH == 1, g["col"], 0) + b.l
+        g["bottom"] = Max(g["bottom"], g["row"] + PH - 1)
+        g["row"] = g["row"] + PH - 1
+        g["col"] = If(PH == 1, g["col"], 0) + PW
+        g["nl"] = g["nl"] + PH - 1
+        g["sgr_default"] = z3.BoolVal(True)
+        g["last_nl"] = z3.BoolVal(False)
+        g["log"] = g["log"] + [("pblock", b)]
+
     def block(self, b):
         g = self.g
         if g["parser"] != "ground":
             raise Unsupported("block inside a control sequence")
+        if g.get("on_block") is not None:
+            g["on_block"](self, b)
+        c0 = g["col"]
         self.block_line(b, z3.IntVal(0))
         hm1 = b.h - 1
         body = TS(b.sep.items + [("__blkline__", b)])
         self.rep(body, hm1, blk=b)
+        # the separator must bring the cursor back to the block's left column, one row down (a rectangle, not a staircase)
+        g1 = self.last_rep_first
+        self.oblige("block-lines-left-aligned", z3.Implies(to_z3(hm1) >= 1, z3.And(to_z3(g1["blk_col"]) == to_z3(c0), to_z3(g1["row"]) == to_z3(g["row"]) + 1)),
+                    kind="geometry")
 
     def block_line(self, b, idx):
         g = self.g
@@ -629,6 +667,7 @@ class VT:
         # first iteration from the actual state
         k = eng.sym_int("rep_k")
         g1 = run_once(g0, [nz >= 1], z3.IntVal(0))
+        self.last_rep_first = g1
         nl_per = z3.simplify(to_z3(g1["nl"]) - to_z3(g0["nl"]))
         if not z3.is_int_value(nl_per):
             raise Unsupported("repetition body with a symbolic number of newlines")
